@@ -412,6 +412,64 @@ theorem C15_generated_client_default (sys : Sys Root) (uri : Uri) (ep : Endpoint
     injection hi with hi
     exact hi.symm
 
+/-- **Generated clients connect only to an authenticated h2 server.** A client built the way
+generated `connect` functions build it (`Endpoint::new`) over an https URI gets an IO to write
+its call on only if that IO is a TLS session in which h2 WAS negotiated (there is no opt-out on
+this path) and whose server chain verifies, for the URI's host, against exactly the root stores
+compiled in and enabled (platform store, webpki store) — in every build (`sys`), whatever the
+stores hold and whatever the handshake does. -/
+theorem C15_generated_client_connects_only_if
+    (verifies : List Root → Chain → String → Bool) (verifiesClient : List Root → Chain → Bool)
+    (hs : Handshake Root Chain) (laws : RustlsLaws verifies verifiesClient hs)
+    (sys : Sys Root) (uri : Uri) (ep : Endpoint Root Chain)
+    (srv : ServerHello Root Chain) (dialOk : Bool) (io : Io)
+    (hnew : Endpoint.new sys uri = .ok ep) (hhttps : uri.scheme = some .https)
+    (hconn : Connector.call ep dialOk (fun c => (hs c srv).client) = .ok io) :
+    io = .tls (some alpnH2) ∧
+    ∃ name roots, uri.host = some name ∧
+      SameRoots roots
+        ((if sys.featNative then sys.nativeCerts else []) ++ (if sys.featWebpki then sys.webpkiRoots else [])) ∧
+      verifies roots srv.chain name = true := by
+  have hcfg : (Endpoint.fromShared uri).tlsConfig sys
+      (ClientTlsConfig.build ([.withEnabledRoots] : List (ClientOp Root Chain))) = .ok ep := by
+    simpa only [Endpoint.new, hhttps, if_true] using hnew
+  obtain ⟨a, hio, ⟨name, roots, hname, hroots, hver⟩, halpn⟩ :=
+    C15_client_connects_only_if verifies verifiesClient hs laws sys uri _ ep srv dialOk io hcfg hhttps hconn
+  have hno : assumes ([.withEnabledRoots] : List (ClientOp Root Chain)) = false := rfl
+  rw [hno] at halpn
+  refine ⟨?_, name, roots, ?_, ?_, hver⟩
+  · cases halpn with
+    | inl h => rw [hio, h]
+    | inr h => cases h
+  · simpa [expectedName, configuredDomain, domainOfOp] using hname
+  · simpa [configuredRoots, rootsOfOp] using hroots
+
+/-- **An empty platform store is an error, not an empty trust store.** In a build with
+`tls-native-roots`, a configuration that asks for the platform's certificates — at any point of
+any builder sequence — is refused by `Endpoint::tls_config` when the platform yields none. -/
+theorem C15_empty_native_store_refused (sys : Sys Root) (uri : Uri) (ops : List (ClientOp Root Chain))
+    (hfeat : sys.featNative = true) (hempty : sys.nativeCerts = []) (hask : asksNative ops = true)
+    (ep : Endpoint Root Chain) :
+    (Endpoint.fromShared uri).tlsConfig sys (ClientTlsConfig.build ops) ≠ .ok ep := by
+  have hstep : nativeStep sys (ClientTlsConfig.build ops) = .error .nativeCertsNotFound := by
+    simp [nativeStep, hfeat, build_native, hask, hempty]
+  intro h
+  simp only [Endpoint.tlsConfig, Endpoint.fromShared, ClientTlsConfig.intoTlsConnector] at h
+  cases hd : (ClientTlsConfig.build ops).domain with
+  | some d => simp [hd, TlsConnector.new, hstep] at h
+  | none =>
+    cases hh : uri.host with
+    | some d => simp [hd, hh, TlsConnector.new, hstep] at h
+    | none => simp [hd, hh] at h
+
+/-- … in particular a generated client over https does not come into being then. -/
+theorem C15_generated_client_needs_a_store (sys : Sys Root) (uri : Uri)
+    (hfeat : sys.featNative = true) (hempty : sys.nativeCerts = []) (hh : uri.scheme = some .https)
+    (ep : Endpoint Root Chain) :
+    Endpoint.new sys uri ≠ (.ok ep : Except CfgErr (Endpoint Root Chain)) := by
+  simp only [Endpoint.new, hh, if_true]
+  exact C15_empty_native_store_refused sys uri [.withEnabledRoots] hfeat hempty rfl ep
+
 /-! ### non-vacuity -/
 
 open Tls.TestPki in
@@ -519,6 +577,34 @@ example :
       (ServerTlsConfig.build goodSrvOps).tlsAcceptor = .ok s ∧
       (scenario ep (.tonicTls s) .tcp handshake).handlers = 0 := by
   refine ⟨_, _, rfl, rfl, ?_⟩; decide
+
+private def genUri : Uri := { scheme := some .https, host := some "good.test" }
+private def h2Server (c : Cert) (alpn : List String) : ServerHello Cert (List Cert) :=
+  { chain := [c], clientAuth := .off, alpn := alpn }
+
+/-- The hypotheses of `C15_generated_client_connects_only_if` are met in a build with both root
+stores compiled in (platform store {ca1}, webpki store {ca2}): a generated client comes into
+being and connects to an h2 server certified by the webpki store … -/
+example :
+    ∃ ep, Endpoint.new (sysWith true [.ca1]) genUri = .ok ep ∧
+      Connector.call ep true (fun c => (handshake c (h2Server .s2good [alpnH2])).client) = .ok (.tls (some alpnH2)) := by
+  exact ⟨_, rfl, rfl⟩
+
+/-- … while in the build without the webpki store the same server is refused, and a server
+that does not select h2 is refused although its certificate is fine (no opt-out on this path). -/
+example :
+    ∃ ep, Endpoint.new (sysWith false [.ca1]) genUri = .ok ep ∧
+      Connector.call ep true (fun c => (handshake c (h2Server .s2good [alpnH2])).client) = .error (.badCert .unknownIssuer) ∧
+      Connector.call ep true (fun c => (handshake c (h2Server .s1good [])).client) = .error .h2NotNegotiated := by
+  exact ⟨_, rfl, rfl, rfl⟩
+
+/-- The hypotheses of `C15_empty_native_store_refused` are satisfiable (the request for the
+platform store buried in the middle of a builder sequence), and one certificate in the store
+is enough for the same configuration to be accepted. -/
+example : (sysWith false ([] : List Cert)).featNative = true ∧ (sysWith false ([] : List Cert)).nativeCerts = [] ∧
+    asksNative goodOps = true ∧
+    ∃ ep, (Endpoint.fromShared goodUri).tlsConfig (sysWith false [.ca2]) (ClientTlsConfig.build goodOps) = .ok ep :=
+  ⟨rfl, rfl, rfl, _, rfl⟩
 
 end Examples
 
